@@ -260,3 +260,8 @@ func Run(name string, f func()) (outcome string) {
 	fmt.Printf("OUTCOME %s %s\n", name, outcome)
 	return
 }
+
+// Visited reports (under the engine) whether a fully concrete harness state
+// was already explored with at least `remaining` steps left; natively it is
+// always false (a replay follows one path to its end).
+func Visited(key string, remaining int) bool { return false }
